@@ -5,6 +5,10 @@
                                         (variant: F6 repaired / F7 repaired in the tree under test)
     holds <final 0|1> <step> …        → true  |  false <clause>@<step>@<detail> <clause>@… (every failing clause)
     wire <frame> …                    → true  |  false <index> <frame>   (RFC 7540 §6.10 on frames in arrival order, `H2.wireOk`)
+    sizeupd <capFollows 0|1> <ev> …   → ok | refused <index>   (which header block, if any, the relay's HPACK decoder
+                                        refuses for a dynamic table size update above its limit, `Relay.runSized`;
+                                        ev = side,s,v,v… — a SETTINGS frame with these HEADER_TABLE_SIZE values —
+                                        or side,b,u,u… — a completed header block that begins with these size updates)
     handoff <idle> <read> <readHeader> <write> <mitmHandshake> <hold>   (ms; 0 = not set)
                                       → alive | dead   (is an h2 connection still read `hold` ms after the CONNECT response, `H2.connectThenMITM`)
 
@@ -21,11 +25,28 @@
 -/
 import FwdVerif.Model.H2Check
 import FwdVerif.Model.H2Handoff
+import FwdVerif.Model.H2TableCap
 
 namespace FwdVerif
 namespace H2
 
 open Wire
+
+def parseSized (s : String) : Option (EvS U) :=
+  match s.splitOn "," with
+  | sd :: "s" :: vs => do
+    let side ← sideOf' sd
+    let vs ← vs.mapM natOf
+    pure { ev := { side := side, ord := fun _ => [], op := .settings (vs.map fun v => (settingHeaderTableSize, v)) } }
+  | sd :: "b" :: us => do
+    let side ← sideOf' sd
+    let us ← us.mapM natOf
+    pure { ev := { side := side, ord := fun _ => [], op := .headers 1 false true {} [] [] }, updates := us }
+  | _ => none
+where sideOf' : String → Option Side
+  | "c" => some .client
+  | "s" => some .server
+  | _ => none
 
 def pairsOf : List String → Option (List (Nat × Nat))
   | [] => some []
@@ -133,6 +154,13 @@ def handle : List String → String
       match wireFirstBad none 0 fs with
       | none => "true"
       | some i => s!"false {i} {match fs[i]? with | some f => frameTag f | none => "~"}"
+  | "sizeupd" :: follows :: evs =>
+    match boolOf follows, evs.mapM parseSized with
+    | some cf, some es =>
+      match ((Relay.runSized cf (Relay.startCap cf false false) es).2.map fun x => x.2.2.fatal).idxOf? true with
+      | none => "ok"
+      | some i => s!"refused {i}"
+    | _, _ => "bad-op"
   | ["handoff", idle, read, rh, write, mitm, hold] =>
     match natOf idle, natOf read, natOf rh, natOf write, natOf mitm, natOf hold with
     | some idle, some read, some rh, some write, some mitm, some hold =>
